@@ -4,7 +4,14 @@ package gc
 
 import "github.com/thought-machine/please/src/core"
 
-func init() { vpRegister("vpH_C25_gc", vpH_C25_gc) }
+func init() {
+	vpRegister("vpH_C25_gc", vpH_C25_gc)
+	vpRegister("vpH_C25_testroots", vpH_C25_testroots)
+}
+
+// the same scenario with the dimensions traded: the test may be a root by label
+// or by --keep, in exchange for no sources and no named target
+func vpH_C25_testroots() { vpH_C25_gc() }
 
 var vpGCNames = []string{"bin", "t", "_t#a", "_t#b", "lib"}
 
@@ -43,15 +50,26 @@ func vpH_C25_gc() {
 		ts[4].AddLabel("keep")
 		keepLabel = true
 	}
+	// the test itself may carry a kept label or be listed under --keep: it is
+	// then a root in its own right, also when tests are not included wholesale
+	testKeepLabel, testKeepListed := false, false
+	testRoots := vpBound("testroots") > 0
+	if n > 1 && testRoots {
+		if vpNondetBool("test-has-keep-label") {
+			ts[1].AddLabel("keep")
+			testKeepLabel = true
+		}
+		testKeepListed = vpNondetBool("test-listed-under-keep")
+	}
 	named := -1
-	if vpNondetBool("name-a-target") {
+	if !testRoots && vpNondetBool("name-a-target") {
 		named = []int{1, n - 1}[vpChoice("named", 2)]
 	}
 	// sources: two files shared in every possible way
 	srcOf := make([][]string, n)
 	for i := 0; i < n; i += 2 { // bin, _t#a, lib carry sources
 		for _, f := range []string{"f1.go"} {
-			if vpNondetBool("src") {
+			if !testRoots && vpNondetBool("src") {
 				if vpNondetBool("named") {
 					ts[i].AddNamedSource("g", core.FileLabel{File: f, Package: "p"})
 				} else {
@@ -65,7 +83,11 @@ func vpH_C25_gc() {
 	if named >= 0 {
 		targets = []core.BuildLabel{ts[named].Label}
 	}
-	removed, removedSrcs := targetsToRemove(graph, nil, targets, nil, []string{"keep"}, false)
+	var keepList []core.BuildLabel
+	if testKeepListed {
+		keepList = []core.BuildLabel{ts[1].Label}
+	}
+	removed, removedSrcs := targetsToRemove(graph, nil, targets, keepList, []string{"keep"}, false)
 
 	// ---- reference
 	keep := make([]bool, n)
@@ -83,7 +105,7 @@ func vpH_C25_gc() {
 	}
 	for i := 0; i < n; i++ {
 		isTest := ts[i].IsTest()
-		if (ts[i].IsBinary && !isTest) || (i == 4 && keepLabel) || i == named {
+		if (ts[i].IsBinary && !isTest) || (i == 4 && keepLabel) || i == named || (i == 1 && (testKeepLabel || testKeepListed)) {
 			add(i)
 		}
 	}
